@@ -134,6 +134,13 @@ def opt_cases(tier: str):
 def enumerate_cases(tier: str):
     # one event of every kind under every environment dimension (transport kind, logging, warnings, a bystander gateway, registry file, ...)
     yield from drive.all_sweep_cases()
+    # a large network: 200 sleeping nodes, a command parked for each, every one wakes
+    for version in ("2.0", "2.2"):
+        wake_t = 32 if version == "2.2" else 22
+        reg = {str(n): {"node_id": n, "node_type": 17, "protocol_version": "2.0", "sketch_name": "", "sketch_version": "", "battery_level": 0, "heartbeat": 0, "sleeping": True,
+                        "children": {"1": {"child_id": 1, "child_type": 3, "description": "", "values": {}}}} for n in range(1, 201)}
+        ops = [["send", [n, 1, 1, 0, 2, str(n % 2)], True] for n in range(1, 201)] + [["rx", f"{n};255;3;0;{wake_t};1\n"] for n in range(1, 201)]
+        yield {"version": version, "metric": True, "registry": reg, "ops": ops}
     # one parked command, one intervening event of every kind, then the wake: the command is owed whatever happened in between
     registry = {
         "11": {"node_id": 11, "node_type": 17, "protocol_version": "2.0", "sketch_name": "", "sketch_version": "", "battery_level": 0, "heartbeat": 0, "sleeping": True,
